@@ -7,7 +7,7 @@
 //!   patterns: a, ab, a+, a|b, ^a, b$, (?-u:\xFF), b\nb|a  (the last one CAN match a line terminator, which
 //!             makes `rg -U` take the multi-line strategy; inputs on which some match really spans a
 //!             terminator are skipped, so the per-line expectation is well defined)
-//!   inputs  : every text over {a, b, 0xFF, \n, \r} of <= VERIF_PRINT_LEN bytes (default 5)
+//!   inputs  : every text over {a, b, 0xFF, \n, \r, 0xCE, 0xB1 (together: U+03B1)} of <= VERIF_PRINT_LEN bytes (default 5)
 //!   modes   : 0 `-n -b --column`   1 `--vimgrep` (one record per match)   2 `-o -n -b --column`   3 `--json`
 //!             each without and with -U
 use grep_printer::{JSONBuilder, StandardBuilder};
@@ -15,8 +15,8 @@ use grep_regex::RegexMatcherBuilder;
 use grep_searcher::SearcherBuilder;
 use termcolor::NoColor;
 
-const PATTERNS: &[&str] = &["a", "ab", "a+", "a|b", "^a", "b$", r"(?-u:\xFF)", "b\nb|a"];
-const ALPHA: &[u8] = &[b'a', b'b', 0xFF, b'\n', b'\r'];
+const PATTERNS: &[&str] = &["a", "ab", "a+", "a|b", "^a", "b$", r"(?-u:\xFF)", "b\nb|a", r"(?-u:\xCE)|a"];
+const ALPHA: &[u8] = &[b'a', b'b', 0xFF, b'\n', b'\r', 0xCE, 0xB1];
 
 fn inputs(max: usize) -> Vec<Vec<u8>> {
     let mut out: Vec<Vec<u8>> = vec![vec![]];
